@@ -2,14 +2,17 @@ package props
 
 import (
 	"fmt"
+	"reflect"
 
 	structform "github.com/elastic/go-structform"
+	"github.com/elastic/go-structform/gotype"
 
 	"verif/harness/codec"
 	"verif/harness/gen"
 	"verif/harness/mon"
 	"verif/harness/run"
 	"verif/harness/val"
+	"verif/harness/zoo"
 )
 
 // C09: every producer emits only well-formed event streams.
@@ -200,4 +203,71 @@ func init() {
 		Suites: c09Suites,
 	})
 	_ = fmt.Sprint
+}
+
+// fold: gotype.Fold of generated (type, value) pairs behind the automaton.
+func c09Fold(c *run.C) {
+	r := c.R
+	var t reflect.Type
+	var v reflect.Value
+	var opts []gotype.FoldOption
+	how := "generated"
+	switch {
+	case c.Idx%10 == 0:
+		all := append(append([]reflect.Type{}, zoo.Supported...), zoo.FoldOnly...)
+		t = all[(c.Idx/10)%len(all)]
+		ifaceTypes := []reflect.Type{reflect.TypeOf(zoo.Plain{}), reflect.TypeOf(map[string]int{}), reflect.TypeOf(map[string]interface{}{}), reflect.TypeOf(zoo.FoldVal{})}
+		vg := &gen.ValueGen{R: r, O: gen.GoValueOpts{BadUTF8: true, SpecialF: true, IfaceTypes: ifaceTypes}}
+		v = vg.Value(t, 0)
+		how = "zoo"
+	case c.Idx%10 == 1:
+		t = []reflect.Type{reflect.TypeOf(withReg{}), reflect.TypeOf(withRegInline{}), reflect.TypeOf([]*regB{}), reflect.TypeOf(map[string]regA{})}[(c.Idx/10)%4]
+		vg := &gen.ValueGen{R: r, O: gen.GoValueOpts{IfaceTypes: []reflect.Type{reflect.TypeOf(regA{}), reflect.TypeOf(&regB{}), reflect.TypeOf(0)}}}
+		v = vg.Value(t, 0)
+		opts = []gotype.FoldOption{gotype.Folders(foldRegA, foldRegB)}
+		how = "registered"
+	default:
+		t, v = genTypeValue(r, gen.GoTypeOpts{MaxDepth: 4, Extra: zoo.Supported}, gen.GoValueOpts{BadUTF8: true, SpecialF: true})
+	}
+	tags := typeTags(t)
+	c.Begin(goCase{Type: t.String(), Value: valueString(v), How: how, Tags: tags})
+	for _, tg := range tags {
+		c.Tag(tg)
+	}
+	m := mon.NewMonitor()
+	m.Transition = map[[2]uint8]int{}
+	var sink structform.Visitor = m
+	sinkName := "ext"
+	switch r.Intn(3) {
+	case 1:
+		sink, sinkName = m.Basic(), "basic"
+	case 2:
+		sink, sinkName = m.WithRefs(), "basic+refs"
+	}
+	err, ok := foldInto(c, v, r.Bool(), sink, opts...)
+	if !ok {
+		return
+	}
+	if err != nil {
+		c.Observe("fold_errors", 1)
+		return
+	}
+	if !contractVerdict(c, "gotype.Fold ("+sinkName+" sink)", m, true, "type="+t.String()+"\nvalue="+valueString(v)) {
+		return
+	}
+	observeAutomaton(c, m)
+	c.Observe("folds_checked", 1)
+	for _, tg := range tags {
+		c.Observe(tg, 1)
+	}
+	c.Nontrivial(gen.Mix(92, gen.HashString(t.String()), gen.HashString(valueString(v))))
+	if len(t.String()) < 200 {
+		c.Sample("fold", goCase{Type: t.String(), Value: valueString(v)})
+	}
+}
+
+func init() {
+	chk := run.Lookup("C09")
+	chk.Suites = append(chk.Suites, &run.Suite{Name: "fold", N: tierN(150000, 5000000), Case: c09Fold,
+		Require: []string{"folds_checked", "type:tag-omitempty", "type:tag-inline", "type:tag-omit", "type:ptr", "type:interface", "type:map", "type:slice"}})
 }
